@@ -9,7 +9,7 @@ From Coq Require Import List NArith ZArith Lia Bool Arith ZifyBool ZifyN ZifyNat
 From Coq Require Import Strings.Byte.
 Require Import BS.Bytes BS.Common BS.CommonFacts BS.Api BS.Layout BS.Format BS.FormatFacts BS.Spec BS.SpecStep BS.Known BS.Judge BS.Sections.
 Require Import BS.FS BS.FSFacts BS.Meta BS.MetaFacts BS.Header BS.Reader BS.ReaderFacts BS.Index BS.Data BS.DataFacts BS.Seek BS.SeekFacts BS.Series BS.World.
-Require Import BS.SeriesFacts BS.ReadAllFacts BS.TotalFacts BS.CountFacts BS.OpenFacts.
+Require Import BS.SeriesFacts BS.ReadAllFacts BS.TotalFacts BS.CountFacts BS.OpenFacts BS.SampleFacts BS.ExtractFacts BS.HeaderFacts BS.ParseFileFacts BS.TornFacts BS.TornGenFacts.
 Import ListNotations.
 Close Scope N_scope. Open Scope nat_scope.
 
@@ -19,10 +19,71 @@ Proof.
   induction l as [|x t IH]; [reflexivity|]. cbn [combine forallb fst snd]. rewrite N.eqb_refl, bytes_eqb_refl. exact IH.
 Qed.
 
+Lemma sfs_get_put_same fs f c : sfs_get (sfs_put fs f c) f = Some c.
+Proof. induction fs as [|[g d] t IH]; cbn [sfs_put sfs_get]; [rewrite bytes_eqb_refl; reflexivity|]. destruct (bytes_eqb g f) eqn:E; cbn [sfs_get]; rewrite E; [reflexivity|exact IH]. Qed.
+Lemma sfs_get_put_other fs f c g : g <> f -> sfs_get (sfs_put fs f c) g = sfs_get fs g.
+Proof.
+  intros N. induction fs as [|[h d] t IH]; cbn [sfs_put sfs_get].
+  - rewrite (bytes_eqb_neq f g) by congruence. reflexivity.
+  - destruct (bytes_eqb h f) eqn:E; cbn [sfs_get].
+    + apply bytes_eqb_eq in E. subst h. rewrite (bytes_eqb_neq f g) by congruence. reflexivity.
+    + destruct (bytes_eqb h g); [reflexivity|exact IH].
+Qed.
+Lemma sfs_get_del_other fs f g : g <> f -> sfs_get (sfs_del fs f) g = sfs_get fs g.
+Proof.
+  intros N. induction fs as [|[h d] t IH]; cbn [sfs_del sfs_get]; [reflexivity|].
+  destruct (bytes_eqb h f) eqn:E.
+  - apply bytes_eqb_eq in E. subst h. rewrite (bytes_eqb_neq f g) by congruence. exact IH.
+  - cbn [sfs_get]. destruct (bytes_eqb h g); [reflexivity|exact IH].
+Qed.
+Lemma sfs_get_del_same fs f : sfs_get (sfs_del fs f) f = None.
+Proof. induction fs as [|[h d] t IH]; cbn [sfs_del sfs_get]; [reflexivity|]. destruct (bytes_eqb h f) eqn:E; [exact IH|]. cbn [sfs_get]. rewrite E. exact IH. Qed.
+
+Lemma strictly_inc_sorted (l:list line) : StronglySorted N.lt (map fst l) -> strictly_inc l = true.
+Proof.
+  induction l as [|a [|b t] IH]; intros S; [reflexivity|reflexivity|].
+  cbn [map] in S. inversion S as [|? ? St Hall]; subst. cbn [strictly_inc].
+  inversion Hall; subst. replace (fst a <? fst b)%N with true by (symmetry; apply N.ltb_lt; assumption). apply IH. exact St.
+Qed.
+Lemma wf_lines_of_wf p (l:list line) : wf_series p l -> wf_lines p l = true.
+Proof.
+  intros [S F]. unfold wf_lines. rewrite (strictly_inc_sorted l S). cbn [andb].
+  apply forallb_forall. intros x Hx. rewrite Forall_forall in F. destruct (F x Hx) as [H1 H2].
+  replace (length (snd x) =? p) with true by (symmetry; apply Nat.eqb_eq; exact H2).
+  replace (fst x <? U64)%N with true by (symmetry; apply N.ltb_lt; unfold U64; exact H1). reflexivity.
+Qed.
+
+Lemma close_handle_closed dh ch (s:sstate) : ss_h s = None -> close_handle dh ch s = s.
+Proof. destruct s as [fs h o d]. cbn [ss_h]. intros ->. reflexivity. Qed.
+
 Lemma accepts_r_rev p (l:list line) ts pay : accepts_r p (rev l) ts pay = accepts p l ts pay.
 Proof.
   unfold accepts_r, accepts. f_equal.
   destruct l as [|x t] using rev_ind; [reflexivity|]. rewrite rev_app_distr, last_opt_snoc. reflexivity.
+Qed.
+
+(* the answer of a resampling read - the bucket means for some bucket size b >= 1, at most 2n of them - is one the judge's
+   search over bucket sizes finds *)
+Lemma uniform_means_resample p n (sel:list line) b : b >= 1 -> (len (resample p b sel) <= 2 * n)%N ->
+  uniform_means p n sel (resample p b sel) = true.
+Proof.
+  intros Hb L2. unfold uniform_means. replace (len (resample p b sel) <=? 2 * n)%N with true by (symmetry; apply N.leb_le; exact L2).
+  cbn [andb]. destruct (resample p b sel) as [|x t] eqn:RS; [reflexivity|]. rewrite <- RS.
+  assert (LK : length (resample p b sel) = length sel / b).
+  { unfold resample, cache_of. rewrite map_length. apply buckets_length. lia. }
+  set (k := length (resample p b sel)) in *.
+  assert (K0 : k > 0) by (unfold k; rewrite RS; cbn [length]; lia).
+  apply existsb_exists. exists b. split.
+  - apply in_seq.
+    assert (B1 : b * k <= length sel) by (rewrite LK; apply Nat.mul_div_le; lia).
+    assert (B2 : length sel < b * S k).
+    { rewrite LK. pose proof (Nat.mul_succ_div_gt (length sel) b ltac:(lia)). lia. }
+    assert (H1 : length sel / S k <= b).
+    { apply Nat.div_le_upper_bound; [lia|]. lia. }
+    assert (H2 : b <= length sel / k).
+    { apply Nat.div_le_lower_bound; [lia|]. lia. }
+    lia.
+  - replace (1 <=? b) with true by (symmetry; apply Nat.leb_le; lia). cbn [andb]. apply lines_eqb_refl.
 Qed.
 
 Section Session.
@@ -35,6 +96,7 @@ Inductive sess_op : op -> Prop :=
 | so_push ts pay : (ts < 2^64)%N -> sess_op (OPush ts pay)
 | so_read lo hi : sess_op (OReadAll lo hi)
 | so_first n lo hi : sess_op (OReadFirstN n lo hi)
+| so_resample n lo hi : sess_op (OReadN n lo hi)
 | so_count lo hi : sess_op (ONLines lo hi)
 | so_last : sess_op OLastLine
 | so_len : sess_op OLen
@@ -50,7 +112,7 @@ Definition Rel (w:world) (s:sstate) (l:list line) : Prop :=
     /\ (forall g, g <> name ++ ext_data -> g <> name ++ ext_index -> fs_get (w_fs w) g = None)
     /\ sh_name h = name /\ sh_p h = p /\ sh_hdr h = hdr /\ sh_caches h = [] /\ sh_dmg h = None
     /\ sh_rlines h = rev l /\ sh_rregion h = rev (encode p l) /\ sh_full h = full_after p None l
-    /\ ss_fs s = [] /\ ss_det s = true.
+    /\ (forall g, g <> name ++ ext_data -> g <> name ++ ext_index -> sfs_get (ss_fs s) g = None) /\ ss_det s = true.
 
 (* the files of the model are the files the judge expects *)
 Lemma rel_files w s l : Rel w s l -> forall g, fs_get (w_fs w) g = sfs_get (judge_files s) g.
@@ -59,18 +121,16 @@ Proof.
   pose proof (rd_file _ _ _ _ _ _ _ _ (rh_data _ _ _ _ _ _ R)) as [GD _].
   pose proof (rd_ix _ _ _ _ _ _ _ _ (rh_data _ _ _ _ _ _ R)) as [GI _].
   rewrite N1 in GD. rewrite N2 in GI.
-  unfold judge_files, expected_files. rewrite Hs, A9. unfold handle_files. rewrite A5, A4, A1, A2, A3. cbn [flat_map].
+  unfold judge_files, expected_files. rewrite Hs. unfold handle_files. rewrite A5, A4, A1, A2, A3. cbn [flat_map].
   assert (RG : sh_region h = encode p l) by (unfold sh_region; rewrite A7, frev_rev, rev_involutive; reflexivity).
-  rewrite RG. unfold put_all. cbn [fold_left fst snd sfs_put].
+  rewrite RG. unfold put_all. cbn [fold_left fst snd].
   change (name ++ s_ext_data) with (name ++ ext_data). change (name ++ s_ext_index) with (name ++ ext_index).
-  rewrite (bytes_eqb_neq (name ++ ext_data) (name ++ ext_index)) by apply ext_data_index_neq.
-  cbn [sfs_get].
-  destruct (list_eq_dec Byte.byte_eq_dec g (name ++ ext_data)) as [->|G1].
-  - rewrite bytes_eqb_refl. rewrite GD. reflexivity.
-  - rewrite (bytes_eqb_neq (name ++ ext_data) g) by congruence.
-    destruct (list_eq_dec Byte.byte_eq_dec g (name ++ ext_index)) as [->|G2].
-    + rewrite bytes_eqb_refl. rewrite GI. reflexivity.
-    + rewrite (bytes_eqb_neq (name ++ ext_index) g) by congruence. apply Oth; assumption.
+  destruct (list_eq_dec Byte.byte_eq_dec g (name ++ ext_index)) as [->|G2].
+  - rewrite sfs_get_put_same. rewrite GI. reflexivity.
+  - rewrite sfs_get_put_other by exact G2.
+    destruct (list_eq_dec Byte.byte_eq_dec g (name ++ ext_data)) as [->|G1].
+    + rewrite sfs_get_put_same. rewrite GD. reflexivity.
+    + rewrite sfs_get_put_other by exact G1. rewrite A9 by assumption. apply Oth; assumption.
 Qed.
 
 Lemma rel_keep w s l sr : Rel w s l -> w_h w = Some sr -> Rel {| w_fs := w_fs w; w_h := Some sr |} s l.
@@ -79,9 +139,13 @@ Proof.
   exists sr, h. cbn [w_h w_fs]. split; [reflexivity|]. exact Rest.
 Qed.
 
+(* the lines after an operation, as Layer S has them *)
+Definition next_lines (l:list line) (o:op) : list line :=
+  match o with OPush ts pay => if accepts p l ts pay then l ++ [(ts, pay)] else l | _ => l end.
+
 (* one operation of a session: the model's answer is allowed by the judge, and the two states stay related *)
 Theorem step_accepted w s l o : Rel w s l -> sess_op o ->
-  exists l', snd (judge_step s o) (snd (step' w o)) = true /\ Rel (fst (step' w o)) (fst (judge_step s o)) l'.
+  snd (judge_step s o) (snd (step' w o)) = true /\ Rel (fst (step' w o)) (fst (judge_step s o)) (next_lines l o).
 Proof.
   intros RL SO.
   destruct RL as (sr & h & Hw & Hs & R & N1 & N2 & Oth & A1 & A2 & A3 & A4 & A5 & A6 & A7 & A8 & A9 & A10).
@@ -92,15 +156,15 @@ Proof.
   assert (JS : forall o', match o' with ONew _ _ _ _ _ | OOpen _ _ _ _ _ | OClose => False | _ => True end ->
                judge_step s o' = spec_step' j_data_header j_cache_header s o').
   { intros o' Ho. unfold judge_step, spec_step. rewrite Hs, A5. reflexivity. }
-  destruct SO as [ts pay Hts|lo hi|n lo hi|lo hi| | | | |].
+  destruct SO as [ts pay Hts|lo hi|n lo hi|n lo hi|lo hi| | | | |].
   - (* push *)
     rewrite JS by exact I. cbn [step' step spec_step'].
     unfold spec_push, with_h. rewrite Hs. rewrite A2, A6, accepts_r_rev.
-    pose proof (push_line_ok (w_fs w) sr p _ _ l ts pay R Hts) as PL.
+    cbn [next_lines]. pose proof (push_line_ok (w_fs w) sr p _ _ l ts pay R Hts) as PL.
     destruct (accepts p l ts pay) eqn:AC.
     + destruct PL as (fs' & sr' & E & R' & Oth' & M1 & M2).
       destruct (tail_bytes p (sh_full h) (ts, pay)) as [b f'] eqn:TB.
-      exists (l ++ [(ts, pay)]). unfold with_handle. rewrite Hw. erewrite mbind_ok by exact E. cbn [ret fst snd is_out].
+      unfold with_handle. rewrite Hw. erewrite mbind_ok by exact E. cbn [ret fst snd is_out].
       split; [reflexivity|].
       eexists sr', _. cbn [w_h w_fs ss_h set_h ss_fs ss_det].
       split; [reflexivity|]. split; [reflexivity|]. split; [exact R'|]. split; [rewrite M1; exact N1|]. split; [rewrite M2; exact N2|].
@@ -113,13 +177,12 @@ Proof.
       split.
       { rewrite A7, rev_append_rev, <- rev_app_distr, encode_snoc, TB. reflexivity. }
       split; [rewrite full_after_snoc, TB; reflexivity|]. split; assumption.
-    + destruct PL as (e & E). exists l.
-      unfold with_handle. rewrite Hw. erewrite mbind_err by exact E. cbn [fst snd is_err].
+    + destruct PL as (e & E).       unfold with_handle. rewrite Hw. erewrite mbind_err by exact E. cbn [fst snd is_err].
       split; [reflexivity|].
       exact (rel_keep w s l sr KEEP Hw).
   - (* read_all *)
     rewrite JS by exact I. cbn [step' step spec_step']. unfold with_h. rewrite Hs, LN. cbn [fst snd].
-    exists l.
+    cbn [next_lines].
     unfold with_handle, reading. rewrite Hw.
     destruct (read_all_ok (w_fs w) sr p _ _ l R lo hi) as [E|[SE E]].
     + erewrite mbind_ok by exact E. cbn [ret fst snd]. split.
@@ -129,7 +192,7 @@ Proof.
       exact (rel_keep w s l sr KEEP Hw).
   - (* read_first_n *)
     rewrite JS by exact I. cbn [step' step spec_step']. unfold with_h. rewrite Hs, LN. cbn [fst snd].
-    exists l.
+    cbn [next_lines].
     unfold with_handle, reading. rewrite Hw.
     destruct (N.eqb_spec n 0) as [->|Hn].
     + unfold read_first_n. cbn [N.eqb]. unfold mbind, ret. cbn [fst snd]. split; [reflexivity|].
@@ -140,9 +203,22 @@ Proof.
         -- exact (rel_keep w s l sr KEEP Hw).
       * erewrite mbind_err by exact E. cbn [fst snd]. rewrite SE. rewrite firstn_nil. split; [reflexivity|].
         exact (rel_keep w s l sr KEEP Hw).
+  - (* read_n, no cache levels *)
+    rewrite JS by exact I. cbn [step' step spec_step']. unfold with_h. rewrite Hs. cbn [fst snd].
+    cbn [next_lines].
+    unfold with_handle, reading. rewrite Hw. unfold read_n_allowed. rewrite LN, A4. cbn [map existsb].
+    destruct (N.eqb_spec n 0) as [->|Hn].
+    + unfold read_n. rewrite (rh_down _ _ _ _ _ _ R). cbn [sorted_lens N.eqb]. unfold mbind, ret. cbn [fst snd]. split; [reflexivity|].
+      exact (rel_keep w s l sr KEEP Hw).
+    + replace (n =? 0)%N with false by (symmetry; apply N.eqb_neq; exact Hn).
+      destruct (read_n_ok (w_fs w) sr p _ _ l R n lo hi (rh_down _ _ _ _ _ _ R) ltac:(lia)) as [(b & Hb & E & L2)|[SE E]].
+      * erewrite mbind_ok by exact E. cbn [ret fst snd]. split; [|exact (rel_keep w s l sr KEEP Hw)].
+        rewrite A2, (uniform_means_resample p n _ b Hb L2). reflexivity.
+      * erewrite mbind_err by exact E. cbn [fst snd]. rewrite SE. split; [reflexivity|].
+        exact (rel_keep w s l sr KEEP Hw).
   - (* n_lines *)
     rewrite JS by exact I. cbn [step' step spec_step']. unfold with_h. rewrite Hs, LN, RG, A2. cbn [fst snd].
-    exists l.
+    cbn [next_lines].
     unfold with_handle, reading. rewrite Hw.
     destruct (n_lines_ok (w_fs w) sr p _ _ l R lo hi) as [(k & E & Hk)|[[SE E]|(SE & _ & E)]].
     + erewrite mbind_ok by exact E. cbn [ret fst snd]. split.
@@ -157,7 +233,7 @@ Proof.
       exact (rel_keep w s l sr KEEP Hw).
   - (* last_line *)
     rewrite JS by exact I. cbn [step' step spec_step']. unfold with_h. rewrite Hs, LN. cbn [fst snd].
-    exists l.
+    cbn [next_lines].
     unfold with_handle, reading. rewrite Hw. pose proof (last_line_ok (w_fs w) sr p _ _ l R) as E.
     destruct (last_opt l) as [x|] eqn:LO.
     + erewrite mbind_ok by exact E. cbn [ret fst snd is_out]. rewrite N.eqb_refl, bytes_eqb_refl. split; [reflexivity|].
@@ -166,27 +242,27 @@ Proof.
       exact (rel_keep w s l sr KEEP Hw).
   - (* len *)
     rewrite JS by exact I. cbn [step' step spec_step']. unfold with_h. rewrite Hs, LN. cbn [fst snd].
-    exists l.
+    cbn [next_lines].
     unfold with_handle, reading, lift. rewrite Hw. rewrite (len_ok _ _ _ _ _ _ R). unfold mbind, ret. cbn [fst snd is_out].
     rewrite N.eqb_refl. split; [reflexivity|].
     exact (rel_keep w s l sr KEEP Hw).
   - (* is_empty *)
     rewrite JS by exact I. cbn [step' step spec_step']. unfold with_h. rewrite Hs, LN. cbn [fst snd].
-    exists l.
+    cbn [next_lines].
     unfold with_handle, reading, lift. rewrite Hw. rewrite (len_ok _ _ _ _ _ _ R). unfold mbind, ret. cbn [fst snd is_out].
     split.
     + destruct l as [|x t]; [reflexivity|]. unfold len. cbn [length]. replace (N.of_nat (S (length t)) =? 0)%N with false by (symmetry; apply N.eqb_neq; lia). reflexivity.
     + exact (rel_keep w s l sr KEEP Hw).
   - (* range *)
     rewrite JS by exact I. cbn [step' step spec_step']. unfold with_h. rewrite Hs, LN. cbn [fst snd].
-    exists l.
+    cbn [next_lines].
     unfold with_handle, reading. rewrite Hw. rewrite (range_ok _ _ _ _ _ _ R). unfold mbind, ret. cbn [fst snd is_out].
     split.
     + destruct (first_last l) as [[a b]|]; [rewrite !N.eqb_refl; reflexivity|reflexivity].
     + exact (rel_keep w s l sr KEEP Hw).
   - (* payload_size *)
     rewrite JS by exact I. cbn [step' step spec_step']. unfold with_h. rewrite Hs, A2. cbn [fst snd].
-    exists l.
+    cbn [next_lines].
     unfold with_handle, reading. rewrite Hw. rewrite (payload_size_ok _ _ _ _ _ _ R). unfold mbind, ret. cbn [fst snd is_out].
     rewrite N.eqb_refl. split; [reflexivity|].
     exact (rel_keep w s l sr KEEP Hw).
@@ -211,6 +287,79 @@ Proof.
   repeat (split; [reflexivity|]). reflexivity.
 Qed.
 
+(* ---- close and reopen ---- *)
+Hypothesis Hp : (N.of_nat p < 2^64)%N.
+
+(* both sides closed; the files of the series lie on disk as the last handle left them *)
+Definition RelC (w:world) (s:sstate) (l:list line) : Prop :=
+  w_h w = None /\ ss_h s = None
+  /\ (exists sr, RepH (w_fs w) sr p (outer header) (outer []) l
+               /\ of_name (d_file (s_data sr)) = name ++ ext_data /\ of_name (ix_file (d_index (s_data sr))) = name ++ ext_index)
+  /\ (forall g, g <> name ++ ext_data -> g <> name ++ ext_index -> fs_get (w_fs w) g = None)
+  /\ (forall g, fs_get (w_fs w) g = sfs_get (ss_fs s) g)
+  /\ ss_det s = true.
+
+Lemma relc_files w s l : RelC w s l -> forall g, fs_get (w_fs w) g = sfs_get (judge_files s) g.
+Proof. intros (_ & Hs & _ & _ & F & _) g. unfold judge_files, expected_files. rewrite Hs. apply F. Qed.
+
+Theorem close_accepted w s l : Rel w s l ->
+  snd (judge_step s OClose) (snd (step' w OClose)) = true /\ RelC (fst (step' w OClose)) (fst (judge_step s OClose)) l.
+Proof.
+  intros RL. pose proof (rel_files w s l RL) as FILES.
+  destruct RL as (sr & h & Hw & Hs & R & N1 & N2 & Oth & A1 & A2 & A3 & A4 & A5 & A6 & A7 & A8 & A9 & A10).
+  unfold judge_step, spec_step. rewrite Hs, A5. cbn [spec_step' step' step]. rewrite Hs, Hw. cbn [fst snd is_out].
+  split; [reflexivity|].
+  unfold RelC, close_handle. cbn [w_h w_fs ss_h ss_fs ss_det].
+  split; [reflexivity|]. split; [reflexivity|]. split; [exists sr; repeat (split; [assumption|]); assumption|].
+  split; [exact Oth|]. split; [exact FILES|exact A10].
+Qed.
+
+(* what must hold of the lines on disk for a reopen to be in the territory where C04 is proved: payload sizes 0..3 need the
+   marker-word condition (outside it: known finding D6) *)
+Definition reopen_valid (l:list line) (popt:option N) (hdropt:hdropt) : Prop :=
+  Forall (nm_sec p) (secs_of l) /\ (len (encode p l) < 2^64)%N
+  /\ (popt = None \/ popt = Some (N.of_nat p)) /\ match hdropt with HdrIs e => e = hdr | HdrAny => True end.
+
+Theorem open_accepted w s l popt hdropt cb : RelC w s l -> reopen_valid l popt hdropt ->
+  snd (judge_step s (OOpen name popt hdropt [] cb)) (snd (step' w (OOpen name popt hdropt [] cb))) = true
+  /\ Rel (fst (step' w (OOpen name popt hdropt [] cb))) (fst (judge_step s (OOpen name popt hdropt [] cb))) l.
+Proof.
+  intros (Hw & Hs & (sr & R & N1 & N2) & Oth & F & DET) (NM & H64 & Hopt & HO).
+  destruct (reopen_all_payloads p (w_fs w) sr hdr name popt hdropt cb l R N1 N2 Hh H64 Hp Hopt NM HO) as (s' & E & R' & CB & M1 & M2).
+  pose proof (rh_wf _ _ _ _ _ _ R) as W.
+  pose proof (rd_file _ _ _ _ _ _ _ _ (rh_data _ _ _ _ _ _ R)) as [GD _]. rewrite N1 in GD.
+  assert (SD : sfs_get (ss_fs s) (name ++ ext_data) = Some (outer header ++ encode p l)) by (rewrite <- F; exact GD).
+  cbn [step' step w_fs]. rewrite E. cbn [fst snd].
+  unfold judge_step, spec_step. rewrite Hs. cbn [spec_step'].
+  unfold spec_open. rewrite (close_handle_closed _ _ s Hs). cbn [existsb].
+  change (name ++ s_ext_data) with (name ++ ext_data). rewrite SD.
+  pose proof (parse_file_ok (N.of_nat p) hdr (encode p l) Hp Hh) as PF. cbv zeta in PF. fold header in PF.
+  rewrite PF. cbn [pf_p pf_user pf_region]. rewrite Nat2N.id.
+  assert (PO : match popt with Some q => negb (q =? N.of_nat p)%N | None => false end = false).
+  { destruct Hopt as [->| ->]; [reflexivity|]. rewrite N.eqb_refl. reflexivity. }
+  rewrite PO. rewrite (recover_encode p l W). rewrite (wf_lines_of_wf p l W). cbn [negb].
+  assert (TK : take (N.of_nat (length (encode p l))) (encode p l) = encode p l).
+  { unfold take, len. rewrite N.min_id, Nat2N.id. apply firstn_all. }
+  rewrite TK.
+  assert (OUT : forall e, e = hdr -> is_out (ROpened (N.of_nat (d_p (s_data s'))) hdr) (ROpened (N.of_nat p) e) = true).
+  { intros e ->. cbn [is_out]. rewrite (payload_size_ok _ _ _ _ _ _ R'), N.eqb_refl, bytes_eqb_refl. reflexivity. }
+  assert (REL : forall cbx, Rel {| w_fs := w_fs w; w_h := Some s' |}
+            {| ss_fs := sfs_del (ss_fs s) (name ++ s_ext_part);
+               ss_h := Some {| sh_name := name; sh_p := p; sh_hdr := hdr; sh_caches := []; sh_cb := cbx;
+                               sh_rlines := frev l; sh_rregion := frev (encode p l); sh_full := last_full p (encode p l); sh_dmg := None |};
+               ss_orig := sfs_del (ss_orig s) (name ++ ext_data); ss_det := ss_det s |} l).
+  { intros cbx. eexists s', _. cbn [w_h w_fs ss_h ss_fs ss_det sh_name sh_p sh_hdr sh_caches sh_dmg sh_rlines sh_rregion sh_full].
+    split; [reflexivity|]. split; [reflexivity|]. split; [exact R'|]. split; [exact M1|]. split; [exact M2|]. split; [exact Oth|].
+    repeat (split; [reflexivity|]).
+    split; [apply frev_rev|]. split; [apply frev_rev|]. split; [apply (last_full_encode p l W)|].
+    split; [|exact DET].
+    intros g G1 G2. destruct (list_eq_dec Byte.byte_eq_dec g (name ++ s_ext_part)) as [->|G3]; [apply sfs_get_del_same|].
+    rewrite sfs_get_del_other by exact G3. rewrite <- F. apply Oth; assumption. }
+  destruct hdropt as [|e].
+  - cbn [fst snd]. split; [apply OUT; reflexivity|apply REL].
+  - cbn in HO. subst e. rewrite bytes_eqb_refl. cbn [fst snd]. split; [apply OUT; reflexivity|apply REL].
+Qed.
+
 (* a whole session: every answer of the model is allowed by the judge, the files of the model are the files the judge
    expects after every step, and the judge never leaves the territory the properties determine *)
 Fixpoint accepted (w:world) (s:sstate) (ops:list op) : Prop :=
@@ -229,9 +378,9 @@ Lemma ops_accepted : forall ops w s l, Rel w s l -> Forall sess_op ops -> accept
 Proof.
   induction ops as [|o t IH]; intros w s l RL F; [exact I|].
   inversion F as [|? ? SO Ft]; subst.
-  destruct (step_accepted w s l o RL SO) as (l' & OK & RL').
+  destruct (step_accepted w s l o RL SO) as (OK & RL').
   cbn [accepted]. split; [exact OK|]. split; [exact (rel_files _ _ _ RL')|]. split; [exact (rel_det _ _ _ RL')|].
-  exact (IH _ _ l' RL' Ft).
+  exact (IH _ _ _ RL' Ft).
 Qed.
 
 Theorem session_accepted cb ops : Forall sess_op ops ->
@@ -241,4 +390,61 @@ Proof.
   cbn [accepted]. split; [exact OK|]. split; [exact (rel_files _ _ _ RL)|]. split; [exact (rel_det _ _ _ RL)|].
   exact (ops_accepted ops _ _ [] RL F).
 Qed.
+
+(* ---- histories with clean close-and-reopen steps in between (C04 at the level of the judge) ---- *)
+Inductive hstep := HOp (o:op) | HReopen (popt:option N) (hdropt:hdropt) (cb:cbmode).
+Fixpoint flatten (hs:list hstep) : list op :=
+  match hs with
+  | [] => []
+  | HOp o :: t => o :: flatten t
+  | HReopen a b c :: t => OClose :: OOpen name a b [] c :: flatten t
+  end.
+Fixpoint hvalid (l:list line) (hs:list hstep) : Prop :=
+  match hs with
+  | [] => True
+  | HOp o :: t => sess_op o /\ hvalid (next_lines l o) t
+  | HReopen a b _ :: t => reopen_valid l a b /\ hvalid l t
+  end.
+
+Lemma relc_det w s l : RelC w s l -> ss_det s = true.
+Proof. intros (_ & _ & _ & _ & _ & D). exact D. Qed.
+
+Lemma hist_accepted : forall hs w s l, Rel w s l -> hvalid l hs -> accepted w s (flatten hs).
+Proof.
+  induction hs as [|[o|a b c] t IH]; intros w s l RL V; [exact I| |].
+  - destruct V as [SO Vt]. destruct (step_accepted w s l o RL SO) as (OK & RL').
+    cbn [flatten accepted]. split; [exact OK|]. split; [exact (rel_files _ _ _ RL')|]. split; [exact (rel_det _ _ _ RL')|].
+    exact (IH _ _ _ RL' Vt).
+  - destruct V as [RO Vt]. destruct (close_accepted w s l RL) as (OK1 & RC).
+    destruct (open_accepted _ _ l a b c RC RO) as (OK2 & RL2).
+    cbn [flatten accepted]. split; [exact OK1|]. split; [exact (relc_files _ _ _ RC)|]. split; [exact (relc_det _ _ _ RC)|].
+    split; [exact OK2|]. split; [exact (rel_files _ _ _ RL2)|]. split; [exact (rel_det _ _ _ RL2)|].
+    exact (IH _ _ _ RL2 Vt).
+Qed.
+
+Theorem history_accepted cb hs : hvalid [] hs ->
+  accepted init_world judge_init (ONew name (N.of_nat p) hdr [] cb :: flatten hs).
+Proof.
+  intros V. destruct (new_accepted cb) as [OK RL].
+  cbn [accepted]. split; [exact OK|]. split; [exact (rel_files _ _ _ RL)|]. split; [exact (rel_det _ _ _ RL)|].
+  exact (hist_accepted hs _ _ [] RL V).
+Qed.
 End Session.
+
+(* the premises are satisfiable: payload size 4 (no marker-word condition), two appends, a clean reopen, a refused and an
+   accepted append, reads *)
+Example history_accepted_example :
+  let pay := [x01; x02; x03; x04] in
+  hvalid 4 [] [] [HOp (OPush 10 pay); HOp (OPush 70000 pay); HReopen None HdrAny CbNone; HOp (OPush 5 pay); HOp (OPush 70001 pay);
+                  HOp (OReadAll (Incl 11) Unb); HOp (OReadN 2 Unb Unb); HOp (ONLines Unb (Excl 70001)); HReopen (Some 4%N) (HdrIs []) CbDeny; HOp OLen].
+Proof.
+  cbv zeta.
+  assert (NM : forall m, Forall (nm_sec 4) (secs_of m)) by (intros m; apply Forall_forall; intros sct _; apply nm_p4; lia).
+  cbn [hvalid next_lines]. unfold reopen_valid.
+  repeat match goal with
+         | |- _ /\ _ => split
+         | |- sess_op _ => constructor
+         | |- Forall (nm_sec 4) _ => apply NM
+         | |- True => exact I
+         end; try (vm_compute; reflexivity); try lia; try (left; reflexivity); try (right; reflexivity); try reflexivity.
+Qed.
